@@ -165,7 +165,7 @@ mod verif_c06r {
     }
 
     /// pixels() fed to draw_iter == draw() (C01 third path), bounded: stroke area <= 3x3
-    //@harness prop=C06,C01 kind=bounded tier=quick class=P bound="stroke area <= 3x2 (pixels() iterates its points), stroke width <= 2" unwindset="rectangle::points::Points as core::iter::Iterator>::next=3" fns=src/primitives/rectangle/styled.rs::StyledPixelsIterator::new;src/primitives/rectangle/styled.rs::StyledPixelsIterator::next
+    //@harness prop=C06,C01 kind=bounded tier=quick class=P bound="stroke area <= 3x2 (pixels() iterates its points), stroke width <= 2" unwindset="rectangle::Points as core::iter::Iterator>::next=3" fns=src/primitives/rectangle/styled.rs::StyledPixelsIterator::new;src/primitives/rectangle/styled.rs::StyledPixelsIterator::next
     #[kani::proof]
     #[kani::unwind(8)]
     fn c06_rectangle_pixels_equals_draw() {
